@@ -338,6 +338,9 @@ fn openchild(a: &[String]) -> ! {
 fn nowchild(a: &[String]) -> ! {
     let path = a.get(0).cloned().unwrap_or_default();
     let which = a.get(1).cloned().unwrap_or_default();
+    if a.get(2).map(|s| s.as_str()) == Some("stalled") {
+        nowchild_stalled(&path, &which);
+    }
     let t0 = std::time::Instant::now();
     let res = if which == "c" {
         unsafe {
@@ -365,6 +368,91 @@ fn nowchild(a: &[String]) -> ! {
     std::process::exit(0);
 }
 
+/// `--nowchild <path> <rust|c> stalled`: the client has the segment open; the daemon publishes a new record and, while the client's next
+/// call is copying it (between the call's first and second load of the generation), starts another update and dies inside it.  That call
+/// runs out of retries (bounded work, an error).  Then the same client object is asked again: that call has to return too.
+fn nowchild_stalled(path: &str, which: &str) -> ! {
+    use clock_bound_shm::verif_shim::{set_observer, Access};
+    use std::os::unix::fs::FileExt;
+    let mono = {
+        let mut ts = libc::timespec { tv_sec: 0, tv_nsec: 0 };
+        unsafe { libc::syscall(libc::SYS_clock_gettime, libc::CLOCK_MONOTONIC, &mut ts) };
+        ts.tv_sec
+    };
+    let publish = |gen: u16| {
+        let f = std::fs::OpenOptions::new().write(true).open(path).expect("open segment");
+        let mut rec = Vec::new();
+        rec.extend_from_slice(&(mono - 1).to_ne_bytes());
+        rec.extend_from_slice(&0i64.to_ne_bytes());
+        rec.extend_from_slice(&(mono + 999).to_ne_bytes());
+        rec.extend_from_slice(&0i64.to_ne_bytes());
+        rec.extend_from_slice(&(5000i64 + gen as i64).to_ne_bytes());
+        rec.extend_from_slice(&1000u32.to_ne_bytes());
+        rec.extend_from_slice(&0u32.to_ne_bytes());
+        rec.extend_from_slice(&1i32.to_ne_bytes());
+        rec.extend_from_slice(&0u32.to_ne_bytes());
+        f.write_all_at(&rec, 16).unwrap();
+        f.write_all_at(&gen.to_ne_bytes(), 14).unwrap();
+    };
+    let arm = |path: String| {
+        let loads = std::cell::Cell::new(0usize);
+        set_observer(Some(Box::new(move |acc| {
+            if let Access::Load { addr, .. } = acc {
+                if addr & 0xfff == 14 {
+                    loads.set(loads.get() + 1);
+                    if loads.get() == 2 {
+                        // the daemon starts its next update (generation odd) and dies
+                        let f = std::fs::OpenOptions::new().write(true).open(&path).expect("open segment");
+                        f.write_all_at(&5u16.to_ne_bytes(), 14).unwrap();
+                    }
+                }
+            }
+        })));
+    };
+    let mut out = Vec::new();
+    if which == "c" {
+        unsafe {
+            let cpath = std::ffi::CString::new(path).unwrap();
+            let mut err = ffi::clockbound_err::default();
+            let ctx = ffi::clockbound_open(cpath.as_ptr(), &mut err);
+            if ctx.is_null() {
+                println!("open_err");
+                std::process::exit(0);
+            }
+            publish(4);
+            for i in 0..2 {
+                if i == 0 {
+                    arm(path.to_string());
+                }
+                let t0 = std::time::Instant::now();
+                let mut res0: std::mem::MaybeUninit<[u8; 64]> = std::mem::MaybeUninit::zeroed();
+                let e = ffi::clockbound_now(ctx, res0.as_mut_ptr() as *mut ffi::clockbound_now_result);
+                set_observer(None);
+                out.push(format!("call{}={}:ms={}", i + 1, if e.is_null() { "now_ok".to_string() } else { format!("now_err:kind={}", std::ptr::read(&(*e).kind) as i32) }, t0.elapsed().as_millis()));
+                println!("{}", out.join(" "));
+            }
+        }
+    } else {
+        match clock_bound_client::ClockBoundClient::new_with_path(path) {
+            Err(e) => println!("open_err:kind={}", e.kind as i32 + 1),
+            Ok(mut c) => {
+                publish(4);
+                for i in 0..2 {
+                    if i == 0 {
+                        arm(path.to_string());
+                    }
+                    let t0 = std::time::Instant::now();
+                    let r = c.now();
+                    set_observer(None);
+                    out.push(format!("call{}={}:ms={}", i + 1, match r { Ok(_) => "now_ok".to_string(), Err(e) => format!("now_err:kind={}", e.kind as i32 + 1) }, t0.elapsed().as_millis()));
+                    println!("{}", out.join(" "));
+                }
+            }
+        }
+    }
+    std::process::exit(0);
+}
+
 /// nowahead <rust|c> [watchdog_ms]: the segment holds a complete record whose as_of lies one hour ahead of the caller's monotonic clock
 /// (a file that outlived a reboot, a daemon in another time namespace) and there is no daemon: one call for the time, in a child
 /// process, must return (with the causality error)
@@ -375,7 +463,8 @@ fn cmd_nowahead(a: &[&str]) -> String {
     let mut ts = libc::timespec { tv_sec: 0, tv_nsec: 0 };
     unsafe { libc::syscall(libc::SYS_clock_gettime, libc::CLOCK_MONOTONIC, &mut ts) };
     let mut bytes = seg::header_bytes(72, 1, 2);
-    let a_s = ts.tv_sec + 3600;
+    let stalled = a.get(2).copied() == Some("stalled");
+    let a_s = if stalled { ts.tv_sec - 1 } else { ts.tv_sec + 3600 };
     bytes.extend_from_slice(&a_s.to_ne_bytes());
     bytes.extend_from_slice(&0i64.to_ne_bytes());
     bytes.extend_from_slice(&(a_s + 1000).to_ne_bytes());
@@ -392,7 +481,7 @@ fn cmd_nowahead(a: &[&str]) -> String {
         Ok(e) => e,
         Err(_) => return "noexe".into(),
     };
-    let mut child = match std::process::Command::new(exe).arg("--nowchild").arg(&path).arg(which).stdin(std::process::Stdio::null()).stdout(std::process::Stdio::piped()).stderr(std::process::Stdio::null()).spawn() {
+    let mut child = match std::process::Command::new(exe).arg("--nowchild").arg(&path).arg(which).args(if stalled { vec!["stalled"] } else { vec![] }).stdin(std::process::Stdio::null()).stdout(std::process::Stdio::piped()).stderr(std::process::Stdio::null()).spawn() {
         Ok(c) => c,
         Err(_) => return "nospawn".into(),
     };
@@ -405,7 +494,7 @@ fn cmd_nowahead(a: &[&str]) -> String {
                     use std::io::Read;
                     let _ = o.read_to_string(&mut out);
                 }
-                break format!("ok returned code={} wall_ms={} {}", st.code().unwrap_or(-1), t0.elapsed().as_millis(), out.trim());
+                break format!("ok returned code={} wall_ms={} {}", st.code().unwrap_or(-1), t0.elapsed().as_millis(), out.trim().lines().last().unwrap_or(""));
             }
             Ok(None) => {}
             Err(_) => break "waiterr".into(),
@@ -413,7 +502,12 @@ fn cmd_nowahead(a: &[&str]) -> String {
         if t0.elapsed().as_millis() as u64 > wd {
             let _ = child.kill();
             let _ = child.wait();
-            break format!("ok hung wall_ms={} (the call had not returned; child killed)", t0.elapsed().as_millis());
+            let mut out = String::new();
+            if let Some(mut o) = child.stdout.take() {
+                use std::io::Read;
+                let _ = o.read_to_string(&mut out);
+            }
+            break format!("ok hung wall_ms={} (the call had not returned; child killed) {}", t0.elapsed().as_millis(), out.trim().lines().last().unwrap_or(""));
         }
         std::thread::sleep(std::time::Duration::from_millis(10));
     };
@@ -771,6 +865,7 @@ fn main() {
             "grace" => daemon::cmd_grace(&rest),
             "refid" => daemon::cmd_refid(&rest),
             "poller" => daemon::cmd_poller(&rest),
+            "pollertiming" => daemon::cmd_pollertiming(&rest),
             "phcfile" => daemon::cmd_phcfile(&rest),
             "open" => seg::cmd_open(&rest),
             "snapshot_script" => seg::cmd_snapshot_script(&rest),
@@ -781,6 +876,7 @@ fn main() {
             "abi2" => abi::cmd_abi2(&rest),
             "abi3" => abi::cmd_abi3(&rest),
             "recreate" => seg::cmd_recreate(&rest),
+            "recreate_link" => seg::cmd_recreate_link(&rest),
             "open_race" => seg::cmd_open_race(&rest),
             "stopstart" => seg::cmd_stopstart(&rest),
             "snapshot_stall" => seg::cmd_snapshot_stall(&rest),
